@@ -132,7 +132,7 @@ def run(ctx: core.Ctx):
         d, w = run_faulted(rng, rng.random() < 0.5, p)
         drivers.append(d)
         if w and witness is None:
-            witness = dict(kind="lifecycle", faults=repr(p), events=[e[:60] for e in d.events][-25:], **w)
+            witness = dict(kind="lifecycle", faults=repr(p), server_configured_for_tls=d.tls_configured, events=[e[:60] for e in d.events][-25:], **w)
     for _ in range(150 if ctx.quick else 4000):
         d = ls.Driver(rng, batch=rng.choice([None, 2]))
         ls.random_walk(rng, d, rng.choice([15, 30, 50]), faults=True, kills=True, auth_variants=True)
